@@ -976,4 +976,193 @@ theorem run_inv {cap0 : Nat} (sched : List (Nat × Bool)) {s : AS} (h : AInv cap
 theorem reach_inv (cap max : Nat) (programs : List (List Bytes)) (sched : List (Nat × Bool)) :
     AInv cap (run (init cap max programs) sched) := run_inv sched (init_inv cap max programs)
 
+
+/-! ### Accounting: the usage counter equals the capacity of published plus in-flight blocks -/
+
+def capSum (bs : List ABucket) : Nat := (bs.map (·.cap)).sum
+
+/-- Capacity of the block a thread owns but has not yet published. -/
+def ow (pc : APC) : Nat :=
+  match ownsB pc with
+  | some (_, nb) => nb.cap
+  | none => 0
+
+def owned (ts : List AThread) : Nat := (ts.map fun th => ow th.pc).sum
+
+def Acct (s : AS) : Prop := s.usage = capSum s.buckets + owned s.ts
+
+theorem owned_set {ts : List AThread} {t : Nat} {th : AThread} (ht : ts[t]? = some th) (new : AThread) :
+    owned (ts.set t new) + ow th.pc = owned ts + ow new.pc := by
+  induction ts generalizing t with
+  | nil => simp at ht
+  | cons a rest ih =>
+    cases t with
+    | zero =>
+      simp only [List.getElem?_cons_zero, Option.some.injEq] at ht
+      subst ht
+      simp only [owned, List.set_cons_zero, List.map_cons, List.sum_cons]
+      omega
+    | succ n =>
+      simp only [List.getElem?_cons_succ] at ht
+      have := ih ht
+      simp only [owned, List.set_cons_succ, List.map_cons, List.sum_cons] at this ⊢
+      omega
+
+theorem capSum_updB {bs : List ABucket} {id : Nat} {f : ABucket → ABucket} (hf : ∀ b, (f b).cap = b.cap) :
+    capSum (updB bs id f) = capSum bs := by
+  unfold capSum updB
+  induction bs with
+  | nil => rfl
+  | cons a rest ih =>
+    simp only [List.map_cons, List.sum_cons, ih]
+    split <;> simp [hf]
+
+theorem acct_pc {s : AS} (hA : Acct s) {t : Nat} {th : AThread} (ht : s.ts[t]? = some th) (new : AThread)
+    (how : ow new.pc = ow th.pc) (lg : List (Nat × Bytes × ARes)) (bc : Nat) :
+    Acct { s with ts := s.ts.set t new, log := lg, bucketCap := bc } := by
+  have := owned_set ht new
+  unfold Acct at *
+  simp only
+  omega
+
+theorem acct_upd {s : AS} (hA : Acct s) {t : Nat} {th : AThread} (ht : s.ts[t]? = some th) (new : AThread)
+    (how : ow new.pc = ow th.pc) (lg : List (Nat × Bytes × ARes)) (b : Nat) (f : ABucket → ABucket) (hf : ∀ b, (f b).cap = b.cap) :
+    Acct { s with ts := s.ts.set t new, log := lg, buckets := updB s.buckets b f } := by
+  have := owned_set ht new
+  unfold Acct at *
+  simp only [capSum_updB hf]
+  omega
+
+theorem acct_alloc {s : AS} (hA : Acct s) {t : Nat} {th : AThread} (ht : s.ts[t]? = some th) (new : AThread) (req : Nat)
+    (h0 : ow th.pc = 0) (h1 : ow new.pc = req) :
+    Acct { s with usage := s.usage + req, nextId := s.nextId + 1, ts := s.ts.set t new } := by
+  have := owned_set ht new
+  unfold Acct at *
+  simp only
+  omega
+
+theorem acct_push {s : AS} (hA : Acct s) {t : Nat} {th : AThread} (ht : s.ts[t]? = some th) (new : AThread) (nb : ABucket)
+    (h0 : ow th.pc = nb.cap) (h1 : ow new.pc = 0) (lg : List (Nat × Bytes × ARes)) :
+    Acct { s with ts := s.ts.set t new, log := lg, buckets := nb :: s.buckets } := by
+  have := owned_set ht new
+  unfold Acct at *
+  simp only [capSum, List.map_cons, List.sum_cons] at *
+  omega
+
+theorem owned_quiescent {ts : List AThread} (h : ∀ th ∈ ts, th.pc = .idle) : owned ts = 0 := by
+  induction ts with
+  | nil => rfl
+  | cons a r ih =>
+    simp only [owned, List.map_cons, List.sum_cons] at ih ⊢
+    rw [ih (fun th hth => h th (List.mem_cons_of_mem _ hth)), h a (List.mem_cons_self ..)]
+    rfl
+
+theorem init_acct (cap max : Nat) (programs : List (List Bytes)) : Acct (init cap max programs) := by
+  unfold Acct init
+  have : owned (programs.map fun p => ({ pc := .idle, todo := p } : AThread)) = 0 := by
+    apply owned_quiescent
+    intro th hth
+    simp only [List.mem_map] at hth
+    obtain ⟨p, _, rfl⟩ := hth
+    rfl
+  simp only [this]
+  simp [capSum]
+
+/-- **Every step preserves the accounting identity.** -/
+theorem step_acct {cap0 : Nat} {s s' : AS} {t : Nat} {sp : Bool} (h : AInv cap0 s) (hA : Acct s) (hs : step s t sp = some s') : Acct s' := by
+  unfold step at hs
+  split at hs
+  · simp at hs
+  next th ht =>
+  have hme := h.pcOk t th ht
+  split at hs
+  next hpc =>
+    split at hs
+    · simp at hs
+    next x rest htodo =>
+    split at hs <;> (injection hs with hs; subst hs)
+    · exact acct_pc hA ht { pc := .idle, todo := rest } (by rw [hpc]) _ s.bucketCap
+    · exact acct_pc hA ht { pc := .walk x none, todo := rest } (by rw [hpc]; rfl) s.log s.bucketCap
+  next x cur hpc =>
+    have key : ∀ nxt : Option Nat, (match nxt with
+        | some b => some (setPc s t th (.loadLen x b))
+        | none => some (setPc s t th (.growCap x))) = some s' → Acct s' := by
+      intro nxt hs
+      split at hs <;> (injection hs with hs; subst hs)
+      · exact acct_pc hA ht { th with pc := .loadLen x _ } (by rw [hpc]; rfl) s.log s.bucketCap
+      · exact acct_pc hA ht { th with pc := .growCap x } (by rw [hpc]; rfl) s.log s.bucketCap
+    exact key _ hs
+  next x b hpc =>
+    split at hs
+    · simp at hs
+    next bk hf =>
+    split at hs <;> (injection hs with hs; subst hs)
+    · exact acct_pc hA ht { th with pc := .cas x b bk.len 0 } (by rw [hpc]; rfl) s.log s.bucketCap
+    · exact acct_pc hA ht { th with pc := .walk x (some b) } (by rw [hpc]; rfl) s.log s.bucketCap
+  next x b seen tries hpc =>
+    split at hs
+    · simp at hs
+    next bk hf =>
+    split at hs
+    · injection hs with hs; subst hs
+      exact acct_upd hA ht { th with pc := .copy x b seen } (by rw [hpc]; rfl) s.log b _ (fun _ => rfl)
+    · split at hs <;> (injection hs with hs; subst hs)
+      · exact acct_pc hA ht { th with pc := .cas x b bk.len (tries + 1) } (by rw [hpc]; rfl) s.log s.bucketCap
+      · exact acct_pc hA ht { th with pc := .walk x (some b) } (by rw [hpc]; rfl) s.log s.bucketCap
+  next x b off hpc =>
+    injection hs with hs; subst hs
+    exact acct_upd hA ht { pc := .idle, todo := th.todo } (by rw [hpc]; rfl) _ b _ (fun _ => rfl)
+  next x hpc =>
+    dsimp only at hs
+    split at hs <;> (injection hs with hs; subst hs)
+    · exact acct_pc hA ht { th with pc := .allocMax x x.length .oversize } (by rw [hpc]; rfl) s.log s.bucketCap
+    · exact acct_pc hA ht { th with pc := .growUsage x (s.bucketCap * 2) } (by rw [hpc]; rfl) s.log s.bucketCap
+  next x next hpc =>
+    injection hs with hs; subst hs
+    exact acct_pc hA ht { th with pc := .growMax x next s.usage } (by rw [hpc]; rfl) s.log s.bucketCap
+  next x next u hpc =>
+    dsimp only at hs
+    split at hs
+    · split at hs <;> (injection hs with hs; subst hs)
+      · exact acct_pc hA ht { pc := .idle, todo := th.todo } (by rw [hpc]; rfl) _ s.bucketCap
+      · exact acct_pc hA ht { th with pc := .allocMax x (s.max - u) .remaining } (by rw [hpc]; rfl) s.log s.bucketCap
+    · injection hs with hs; subst hs
+      exact acct_pc hA ht { th with pc := .allocMax x next (.double next) } (by rw [hpc]; rfl) s.log s.bucketCap
+  next x req k hpc =>
+    injection hs with hs; subst hs
+    exact acct_pc hA ht { th with pc := .allocUpd x req s.max k } (by rw [hpc]; rfl) s.log s.bucketCap
+  next x req mx k hpc =>
+    have hx : 0 < x.length := hme.strPos x (by rw [hpc]; rfl)
+    have hr : x.length ≤ req := hme.reqOk x req (by rw [hpc]; rfl)
+    split at hs
+    · injection hs with hs; subst hs
+      exact acct_pc hA ht { pc := .idle, todo := th.todo } (by rw [hpc]; rfl) _ s.bucketCap
+    · split at hs
+      · injection hs with hs; subst hs
+        exact acct_alloc hA ht { th with pc := .storeCap x (freshB s.nextId req x) _ } req (by rw [hpc]; rfl) rfl
+      · split at hs
+        · omega
+        · injection hs with hs; subst hs
+          exact acct_alloc hA ht { th with pc := .pushLoad x (freshB s.nextId req x) } req (by rw [hpc]; rfl) rfl
+  next x nb next hpc =>
+    injection hs with hs; subst hs
+    exact acct_pc hA ht { th with pc := .pushLoad x nb } (by rw [hpc]; rfl) s.log next
+  next x nb hpc =>
+    injection hs with hs; subst hs
+    exact acct_pc hA ht { th with pc := .pushCas x nb (headId s.buckets) } (by rw [hpc]; rfl) s.log s.bucketCap
+  next x nb hd hpc =>
+    split at hs <;> (injection hs with hs; subst hs)
+    · exact acct_push hA ht { pc := .idle, todo := th.todo } nb (by rw [hpc]; rfl) rfl _
+    · exact acct_pc hA ht { th with pc := .pushCas x nb (headId s.buckets) } (by rw [hpc]; rfl) s.log s.bucketCap
+
+theorem run_acct {cap0 : Nat} (sched : List (Nat × Bool)) {s : AS} (h : AInv cap0 s) (hA : Acct s) : Acct (run s sched) := by
+  induction sched generalizing s with
+  | nil => exact hA
+  | cons e rest ih =>
+    obtain ⟨t, sp⟩ := e
+    unfold run
+    split
+    next s' hs => exact ih (step_inv h hs) (step_acct h hA hs)
+    · exact ih h hA
+
 end Lasso.CA
